@@ -65,7 +65,13 @@ func scenarioC09(c *hlib.RunCtx) *hlib.Violation {
 	v := scenarioC09x(c)
 	if v != nil {
 		switch v.Invariant {
-		case "begin", "end", "name-date", "old-file-written", "rotation-liveness", "well-formed", "value-bounded":
+		case "begin", "end", "name-date", "old-file-written", "rotation-liveness", "well-formed", "value-bounded", "early-rotation":
+			return v
+		case "panic", "unbounded-loop", "waits-forever", "memory-fault":
+			// The circumstances of this world (odd week-end files, clock set back,
+			// calendar extremes, the timer chain) occur in no other: a crash that
+			// needs them would be reported by nobody else. (The known C03 finding
+			// stays out of the way through its window.)
 			return v
 		}
 		c.Note("foreign-violation-ignored:" + v.Invariant)
@@ -81,6 +87,11 @@ func scenarioC09x(c *hlib.RunCtx) *hlib.Violation {
 	defer w.close()
 	s := w.s
 	w.strict = true
+	// the machine's local zone: what time.Now() carries
+	if z := t.Biased(4, 2, 3); z > 0 {
+		s.Zone = []*time.Location{nil, time.FixedZone("UTC-8", -8*3600), time.FixedZone("UTC+14", 14*3600), time.FixedZone("UTC-11:30", -(11*3600 + 1800))}[z]
+		s.Probe("machine-in-local-zone")
+	}
 
 	// week-end setting
 	wkKind := t.Biased(4, 2, 3) // 0 valid digit, 1 missing (library creates it), 2 empty, 3 garbage
@@ -90,7 +101,8 @@ func scenarioC09x(c *hlib.RunCtx) *hlib.Violation {
 	switch wkKind {
 	case 0:
 		wd = t.Draw(7)
-		os.WriteFile(wkPath, []byte(fmt.Sprintf("%d\n", wd)), 0666)
+		form := []string{"%d\n", "%d", "%d\r\n", " %d\n", "\n%d\n", "%d \n"}[t.Biased(6, 1, 2)] // as the library writes it, or as an editor leaves it
+		os.WriteFile(wkPath, []byte(fmt.Sprintf(form, wd)), 0666)
 	case 2:
 		os.WriteFile(wkPath, []byte([]string{"", "\n", "  \n"}[t.Draw(3)]), 0666)
 	case 3:
